@@ -190,6 +190,20 @@ class C06(Property):
         ops = [self.rand_op(rng, n, circ, grid) for _ in range(rng.randrange(1, 13))]
         return {"len": n, "circ": circ, "cds": self.rand_cds(rng, n), "ops": ops}
 
+    def manual_regions_case(self, rng: random.Random) -> Dict[str, Any]:
+        """subregions, then add_region one by one in random order (overlap rejection, ordered insert; D25)"""
+        n, grid = self.rand_len(rng)
+        circ = rng.random() < 0.7
+        k = rng.choice([2, 3, 3, 4, 5])
+        ops: List[List[Any]] = [["addSub", self.rand_area(rng, n, circ, grid, full=0.0)] for _ in range(k)]
+        order = list(range(k))
+        rng.shuffle(order)
+        for i in order:
+            ops.append(["addRegion", [], [i]])
+        if rng.random() < 0.3:
+            ops.append([rng.choice(CLEARS)])
+        return {"len": n, "circ": circ, "cds": self.rand_cds(rng, n), "ops": ops}
+
     def malformed_case(self, rng: random.Random) -> Dict[str, Any]:
         n, grid = self.rand_len(rng)
         circ = rng.random() < 0.5
@@ -250,8 +264,10 @@ class C06(Property):
             r = i % 10
             if r < 6:
                 yield self.layout_case(rng)
-            elif r < 9:
+            elif r < 8:
                 yield self.history_case(rng)
+            elif r < 9:
+                yield self.manual_regions_case(rng)
             else:
                 yield self.malformed_case(rng)
 
